@@ -475,12 +475,30 @@ func (s *Sub[C]) Once(c C) *Failure {
 		sub(s.Name).EnvRetries++
 		mu.Unlock()
 	}
+	// a failure the check itself attributes to its own plumbing (signature "<x>.harness": a child process
+	// that did not answer, a priming request that failed) is run again; if it persists the run is inconclusive
+	if f != nil && isHarnessSig(f.Sig) {
+		time.Sleep(2 * time.Second)
+		netx.Calm()
+		first := f.What
+		o = &Obs{}
+		f = s.safeRun(c, o)
+		if f != nil && isHarnessSig(f.Sig) {
+			Incomplete("%s: harness failure persisted (%s): %.300s / %.300s", s.Name, f.Sig, first, f.What)
+			o.Skip = true
+			f = nil
+		}
+	}
 	if f != nil && netx.IsEnv(f.What) {
 		Incomplete("%s: sandbox resource exhaustion persisted over %d retries: %.300s", s.Name, len(envWaits), f.What)
 		o.Skip = true
 		f = nil
 	}
 	return s.account(c, o, f)
+}
+
+func isHarnessSig(sig string) bool {
+	return strings.HasSuffix(sig, ".harness") || strings.Contains(sig, ".harness:")
 }
 
 var envWaits = []time.Duration{2 * time.Second, 10 * time.Second, 30 * time.Second, 45 * time.Second}
